@@ -211,6 +211,31 @@ def gen_synth(rng):
     return spec
 
 
+def gen_shared_bounds_case(rng):
+    """Directed family (seeded change C08-s2): several fields whose auxiliary coordinates are equal,
+    or differ while having EQUAL bounds, over different dimensions of the same size - the bounds
+    attribute of each must still name a variable on the coordinate's own dimensions."""
+    n = rng.choice([2, 3, 5])
+    def fld(dimname, offset, name):
+        return {"src": ["synth", {"shape": [n], "dtype": "f8", "masked": False,
+                                  "dims": [{"coord": rng.random() < 0.3, "bounds": False, "ncvar": None,
+                                            "stdname": None, "ncdim": dimname, "bncvar": None}],
+                                  "aux": {"kind": "num", "axis": 0, "ncvar": name, "stdname": None,
+                                          "offset": offset, "bounds": True}}],
+                "ncvar": None, "props": {}, "nc_global": [], "clear_global": False}
+    a = fld("x", 0, "mid")
+    b = fld("x", 0, "mid")
+    c = fld("y", 1, "end")
+    d = fld("y", 0, "mid")
+    seqs = [[a, b, c], [a, c], [a, b, d], [c, a, b], [a, d, c], [a, b, c, d]]
+    fields = [json.loads(json.dumps(x)) for x in rng.choice(seqs)]
+    for i, fs in enumerate(fields):
+        fs["props"]["c08_id"] = f"F{i}"
+    o = default_opts()
+    o["coordinates"] = rng.random() < 0.3
+    return {"fields": fields, "opts": o, "fam": "shared-bounds"}
+
+
 def gen_chunks(rng, ndim_hint=3):
     r = rng.random()
     if r < 0.55:
@@ -713,6 +738,15 @@ def oracle_file(chk, case, row, cf_version):
             msg = check_chunking(o, None, v["shape"], ITEMSIZE.get(v["dtype"], 1), v["chunking"])
             if msg:
                 fail("chunk-shape", f"{n}: {msg}")
+        if o["fmt"] not in NETCDF3 and v["dtype"] != "vlen-str" and v["shape"] and v["chunking"] != "contiguous":
+            # requested compression is realised on EVERY chunked variable, character arrays and
+            # metadata variables included (variable-length strings cannot be filtered)
+            fl = v["filters"] or {}
+            want_f = {"zlib": bool(o["compress"]), "complevel": int(o["compress"]),
+                      "shuffle": bool(o["shuffle"] and o["compress"]),
+                      "fletcher32": bool(o["fletcher32"])}
+            if fl != want_f:
+                fail("compression", f"{n} ({v['dtype']}): filters {fl}, requested {want_f}")
         if v["dtype"] == "vlen-str" and not (o["fmt"] == "NETCDF4" and o["string"]):
             fail("string-storage", f"{n}: vlen string in {o['fmt']} string={o['string']}")
         if v["dtype"] == "S1" and v["dims"] and o["fmt"] == "NETCDF4" and o["string"]:
@@ -729,6 +763,10 @@ def oracle_file(chk, case, row, cf_version):
             if not c["has_data"] or c["type"] not in ("dimension_coordinate", "auxiliary_coordinate"):
                 continue
             b = c["ncvar"] or c["stdname"]
+            if c["type"] == "dimension_coordinate" and not c["ncvar"] and c.get("ncdim"):
+                # a dimension coordinate without a name of its own takes the netCDF dimension
+                # name set on its domain axis (without any group path when group=False)
+                b = c["ncdim"].split("/")[-1]
             if not b:
                 continue
             b = sanitize(b)
@@ -918,6 +956,8 @@ def run(chk, model_ok):
             fs.setdefault("props", {})["c08_id"] = f"F{i}"
     for k in range(nfiles):
         cases.append(gen_file_case(rng, fams[k % len(fams)]))
+    for k in range(40 if chk.tier == "quick" else 200):
+        cases.append(gen_shared_bounds_case(rng))
     rows = run_files(chk, cases)
     cf_version = table_version()
 
